@@ -1,7 +1,6 @@
 (* Dec/Compile.v - transcription of internal/decoder/jitdec/compiler.go: destination type -> opcode program.
    Same function names, same emission order, same pin / rel label discipline (a `pin i` overwrites the vi
-   operand of instruction i with the current pc; an instruction that is never pinned keeps target 0 - this is
-   how the early return of compilePtr shows).  Type operands and byte offsets are not represented (the tie
+   operand of instruction i with the current pc; an instruction that is never pinned keeps target 0).  Type operands and byte offsets are not represented (the tie
    compares opcode, vi, vb, switch tables and field tables). *)
 From Coq Require Import NArith List Bool.
 From SV.Dec Require Import Ty.
@@ -22,18 +21,19 @@ Inductive op :=
 | OP_goto | OP_switch | OP_check_char_0 | OP_dismatch_err | OP_go_skip | OP_skip_emtpy | OP_add
 | OP_check_empty | OP_unsupported.
 
-Record instr := mkI { i_op : op; i_vi : nat; i_vb : N; i_vs : list nat; i_fm : list (bytes * nat) }.
+(* i_t: the type operand (p.vt()) where the assembler uses one; not part of the listing compared with the real IL *)
+Record instr := mkI { i_op : op; i_vi : nat; i_vb : N; i_vs : list nat; i_fm : list (bytes * nat); i_t : ty }.
 
 Definition prog := list instr.
 Definition pc (p : prog) : nat := length p.
 
-Definition add (p : prog) (o : op) : prog := p ++ [mkI o 0 0 [] []].
-Definition int_ (p : prog) (o : op) (vi : nat) : prog := p ++ [mkI o vi 0 [] []].
-Definition chr (p : prog) (o : op) (vb : N) : prog := p ++ [mkI o 0 vb [] []].
-Definition rtt (p : prog) (o : op) : prog := add p o.
-Definition rtti (p : prog) (o : op) (iv : nat) : prog := int_ p o iv.
-Definition fmv (p : prog) (fm : list (bytes * nat)) : prog := p ++ [mkI OP_struct_field 0 0 [] fm].
-Definition tab (p : prog) : prog := p ++ [mkI OP_switch 0 0 [] []].
+Definition add (p : prog) (o : op) : prog := p ++ [mkI o 0 0 [] [] TBool].
+Definition int_ (p : prog) (o : op) (vi : nat) : prog := p ++ [mkI o vi 0 [] [] TBool].
+Definition chr (p : prog) (o : op) (vb : N) : prog := p ++ [mkI o 0 vb [] [] TBool].
+Definition rtt (p : prog) (o : op) (t : ty) : prog := p ++ [mkI o 0 0 [] [] t].
+Definition rtti (p : prog) (o : op) (t : ty) (iv : nat) : prog := p ++ [mkI o iv 0 [] [] t].
+Definition fmv (p : prog) (fm : list (bytes * nat)) : prog := p ++ [mkI OP_struct_field 0 0 [] fm TBool].
+Definition tab (p : prog) : prog := p ++ [mkI OP_switch 0 0 [] [] TBool].
 
 Fixpoint upd (p : prog) (i : nat) (f : instr -> instr) : prog :=
   match p, i with
@@ -43,7 +43,7 @@ Fixpoint upd (p : prog) (i : nat) (f : instr -> instr) : prog :=
   end.
 
 Definition pin (p : prog) (i : nat) : prog :=
-  let n := pc p in upd p i (fun x => mkI (i_op x) n (i_vb x) (i_vs x) (i_fm x)).
+  let n := pc p in upd p i (fun x => mkI (i_op x) n (i_vb x) (i_vs x) (i_fm x) (i_t x)).
 
 Definition rel (p : prog) (v : list nat) : prog := fold_left pin v p.
 
@@ -65,7 +65,7 @@ Definition map_key_op (k : kty) : op :=
 Definition checkIfSkip (p : prog) (c : N) : prog * nat :=
   let j := pc p in
   let p := chr p OP_check_char_0 c in
-  let p := rtt p OP_dismatch_err in
+  let p := rtt p OP_dismatch_err TBool in
   let s := pc p in
   let p := add p OP_go_skip in
   let p := pin p j in
@@ -100,26 +100,26 @@ Definition compileUnmarshalEnd_ptr (p : prog) (i : nat) : prog :=
 Definition checkMarshaler (p : prog) (vt : ty) : option prog :=
   match vt with
   | TRaw | TUnm =>                       (* pt implements json.Unmarshaler *)
-    let p := add p OP_lspace in Some (rtti p OP_unmarshal_p 0)
+    let p := add p OP_lspace in Some (rtti p OP_unmarshal_p vt 0)
   | TText =>                             (* pt implements encoding.TextUnmarshaler: compileUnmarshalTextPtr *)
     let p := add p OP_lspace in
     let i := pc p in
     let p := add p OP_is_null in
     let p := chr p OP_match_char 34 in
-    let p := rtti p OP_unmarshal_text_p 0 in
+    let p := rtti p OP_unmarshal_text_p vt 0 in
     Some (pin p i)
   | TPtr (TRaw | TUnm) =>                (* vt implements json.Unmarshaler: compileUnmarshalJson *)
     let p := add p OP_lspace in
     let i := pc p in
     let p := add p OP_is_null in
-    let p := rtti p OP_unmarshal 0 in
+    let p := rtti p OP_unmarshal vt 0 in
     Some (compileUnmarshalEnd_ptr p i)
   | TPtr TText =>                        (* vt implements encoding.TextUnmarshaler: compileUnmarshalText *)
     let p := add p OP_lspace in
     let i := pc p in
     let p := add p OP_is_null in
     let p := chr p OP_match_char 34 in
-    let p := rtti p OP_unmarshal_text 0 in
+    let p := rtti p OP_unmarshal_text vt 0 in
     Some (compileUnmarshalEnd_ptr p i)
   | _ => None
   end.
@@ -134,7 +134,7 @@ Definition compileStructFieldStr_scalar (p : prog) (vt : ty) : prog :=
   let '(p, skip) := checkIfSkip p 34 in
   let n1 := pc p in
   let p := add p OP_is_null_quote in
-  let p := if is_ptr then rtt p OP_deref else p in
+  let p := if is_ptr then rtt p OP_deref base else p in
   let n2 := pc p in
   let p := chr p OP_check_char_0 34 in
   let p := match base with
@@ -151,7 +151,7 @@ Definition compileStructFieldStr_scalar (p : prog) (vt : ty) : prog :=
     let pc2 := pc p in
     let p := add p OP_goto in
     let p := pin p n2 in
-    let p := rtt p OP_dismatch_err in
+    let p := rtt p OP_dismatch_err TBool in
     let p := int_ p OP_add 1 in
     let p := pin p pc2 in
     let p := pin p n0 in
@@ -165,7 +165,7 @@ Definition compileStructFieldStr_scalar (p : prog) (vt : ty) : prog :=
     let pc2 := pc p in
     let p := add p OP_goto in
     let p := pin p n2 in
-    let p := rtt p OP_dismatch_err in
+    let p := rtt p OP_dismatch_err TBool in
     let p := int_ p OP_add 1 in
     let p := pin p pc1 in
     let p := pin p pc2 in
@@ -175,13 +175,13 @@ Fixpoint index_fm (names : list bytes) (i : nat) : list (bytes * nat) :=
   match names with [] => [] | n :: r => (n, i) :: index_fm r (S i) end.
 
 (* compileSliceBody: `one` is compileOne(sp+1, et) *)
-Definition compileSliceBody (one : prog -> prog) (p : prog) : prog :=
+Definition compileSliceBody (et : ty) (one : prog -> prog) (p : prog) : prog :=
   let p := add p OP_lspace in
   let j := pc p in
   let p := chr p OP_check_empty 93 in
-  let p := rtt p OP_slice_init in
+  let p := rtt p OP_slice_init et in
   let p := add p OP_save in
-  let p := rtt p OP_slice_append in
+  let p := rtt p OP_slice_append et in
   let p := one p in
   let p := add p OP_load in
   let k0 := pc p in
@@ -189,7 +189,7 @@ Definition compileSliceBody (one : prog -> prog) (p : prog) : prog :=
   let k1 := pc p in
   let p := chr p OP_check_char 93 in
   let p := chr p OP_match_char 44 in
-  let p := rtt p OP_slice_append in
+  let p := rtt p OP_slice_append et in
   let p := one p in
   let p := add p OP_load in
   let p := int_ p OP_goto k0 in
@@ -235,7 +235,7 @@ Fixpoint compileOps (sp : nat) (vt : ty) (p : prog) {struct vt} : prog :=
          | S k' =>
            let p := ONE compileOps (S sp) e p in
            let p := add p OP_load in
-           let p := int_ p OP_index 0 in
+           let p := int_ p OP_index (S (n - k)) in     (* i * elem size: here the element number i *)
            let p := add p OP_lspace in
            let v := v ++ [pc p] in
            let p := chr p OP_check_char 93 in
@@ -246,7 +246,7 @@ Fixpoint compileOps (sp : nat) (vt : ty) (p : prog) {struct vt} : prog :=
     let w := pc p in
     let p := add p OP_goto in
     let p := rel p v in
-    let p := int_ p OP_array_clear 0 in             (* array_clear / array_clear_p: not distinguished *)
+    let p := rtti p OP_array_clear e 0 in             (* array_clear / array_clear_p: not distinguished *)
     let p := pin p w in
     let p := add p OP_drop in
     let p := pin p skip in
@@ -263,7 +263,7 @@ Fixpoint compileOps (sp : nat) (vt : ty) (p : prog) {struct vt} : prog :=
     let x := pc p in
     let p := add p OP_goto in
     let p := pin p j in
-    let p := compileSliceBody (fun p => compilePrimitive (add p OP_lspace) OP_u8) p in
+    let p := compileSliceBody (TInt U8) (fun p => compilePrimitive (add p OP_lspace) OP_u8) p in
     let y := pc p in
     let p := add p OP_goto in
     let p := pin p i in
@@ -280,7 +280,7 @@ Fixpoint compileOps (sp : nat) (vt : ty) (p : prog) {struct vt} : prog :=
     let i := pc p in
     let p := add p OP_is_null in
     let '(p, skip) := checkIfSkip p 91 in
-    let p := compileSliceBody (fun p => ONE compileOps (S sp) e p) p in
+    let p := compileSliceBody e (fun p => ONE compileOps (S sp) e p) p in
     let x := pc p in
     let p := add p OP_goto in
     let p := pin p i in
@@ -300,7 +300,7 @@ Fixpoint compileOps (sp : nat) (vt : ty) (p : prog) {struct vt} : prog :=
     let p := chr p OP_check_char 125 in
     let p := chr p OP_match_char 34 in
     let skip2 := pc p in
-    let p := rtt p o in
+    let p := rtt p o vt in
     let p := add p OP_lspace in
     let p := chr p OP_match_char 58 in
     let p := ONE compileOps (S (S sp)) e p in
@@ -314,7 +314,7 @@ Fixpoint compileOps (sp : nat) (vt : ty) (p : prog) {struct vt} : prog :=
     let p := add p OP_lspace in
     let p := chr p OP_match_char 34 in
     let skip3 := pc p in
-    let p := rtt p o in
+    let p := rtt p o vt in
     let p := add p OP_lspace in
     let p := chr p OP_match_char 58 in
     let p := ONE compileOps (S (S sp)) e p in
@@ -334,14 +334,20 @@ Fixpoint compileOps (sp : nat) (vt : ty) (p : prog) {struct vt} : prog :=
     let i := pc p in
     let p := add p OP_is_null in
     (* dereference all the way down: the first level is the pointer type itself, whose marshaler check already
-       failed in compileOne; every further pointer level is checked, and a hit returns WITHOUT pinning i *)
-    let p := rtt p OP_deref in
+       failed in compileOne; every further pointer level is checked; a hit returns after pinning i to a nil_1
+       (before fix fac5479 it returned without pinning i: the null branch jumped to L_0) *)
+    let p := rtt p OP_deref e0 in
     (fix down (et : ty) (p : prog) {struct et} : prog :=
        match et with
        | TPtr e' =>
          match checkMarshaler p et with
-         | Some p' => p'
-         | None => down e' (rtt p OP_deref)
+         | Some p' =>                                (* since fix fac5479 the null test at i gets its target here too *)
+           let j := pc p' in
+           let p' := add p' OP_goto in
+           let p' := pin p' i in
+           let p' := add p' OP_nil_1 in
+           pin p' j
+         | None => down e' (rtt p OP_deref e')
          end
        | _ =>
          let p := add p OP_lspace in
@@ -353,13 +359,13 @@ Fixpoint compileOps (sp : nat) (vt : ty) (p : prog) {struct vt} : prog :=
          pin p j
        end) e0 p
   | TStruct fs =>                                  (* compileStruct / compileStructBody *)
-    if Nat.leb MaxInlineDepth sp then rtt p OP_recurse
+    if Nat.leb MaxInlineDepth sp then rtt p OP_recurse vt
     else
       let n := pc p in
       let p := add p OP_is_null in
       let j := pc p in
       let p := chr p OP_check_char_0 123 in
-      let p := rtt p OP_dismatch_err in
+      let p := rtt p OP_dismatch_err TBool in
       match fs with
       | FNil =>
         let p := pin p j in
@@ -399,7 +405,7 @@ Fixpoint compileOps (sp : nat) (vt : ty) (p : prog) {struct vt} : prog :=
         let p := add p OP_object_next in
         let p := int_ p OP_goto y0 in
         let '(p, sw) := compileFields (S sp) y0 fs p [] in
-        let setsw := fun x => mkI (i_op x) (length sw) (i_vb x) sw (i_fm x) in
+        let setsw := fun x => mkI (i_op x) (length sw) (i_vb x) sw (i_fm x) (i_t x) in
         let p := upd (upd p sw1 setsw) sw2 setsw in
         let p := pin p x in
         let p := pin p y1 in
@@ -414,7 +420,7 @@ with compileFields (sp : nat) (y0 : nat) (fs : fields) (p : prog) (sw : list nat
   | FNil => (p, sw)
   | FCons _ q t r =>
     let sw := sw ++ [pc p] in
-    let p := int_ p OP_index 0 in
+    let p := int_ p OP_index (length sw - 1) in        (* field offset: here the field number *)
     let p := if q && quotable t then compileStructFieldStr_scalar p t else ONE compileOps sp t p in
     let p := add p OP_load in
     let p := int_ p OP_goto y0 in
